@@ -253,6 +253,7 @@ fn handle(line: &str) -> String {
         "derives" => crate::dispatch::DERIVES.join(" "),
         "xid" => cmd_xid(rest.trim()),
         "case" => cmd_case(rest.trim()),
+        "lower" => hex_decode(rest.trim()).map(|s| hex_encode(&s.to_lowercase())).unwrap_or_else(|| "bad-op".into()),
         "xidtable" => cmd_xidtable(),
         _ => "bad-op".into(),
     }
